@@ -87,6 +87,10 @@ class Reg:
         return self.r
 
     def defined(self):
+        """every element specified and finite (decompositions are only judged on such input)"""
+        return bool(np.all(np.isfinite(self.val)))
+
+    def specified(self):
         return not np.isnan(self.val).any()
 
     def desc(self):
@@ -361,6 +365,8 @@ def install(ctx, d, exp, post, tag, tol=None, name=None):
         with np.errstate(invalid="ignore"):
             err = np.abs(act.val - exp.val)
         err = np.where(known, err, 0.0)
+        # an infinite expectation (overflow, division by zero) must be met exactly
+        err = np.where(known & ~np.isfinite(exp.val), np.where(act.val == exp.val, 0.0, np.inf), err)
         err = np.where(np.isnan(err), np.inf, err)
         with np.errstate(all="ignore"):
             rat = np.where(known, err / t, 0.0)
@@ -738,7 +744,7 @@ def step_chol(ctx, cmd, ans, post):
             else:
                 L, D = ldl_parts(act.val)
                 R = (L * D) @ L.T
-            tol = 400 * (n + 1) * EPS * max(amax(A), 1e-300) * (n + 1)
+            tol = 5000 * (n + 1) * EPS * max(amax(A), 1e-300) * (n + 1)
             e = amax(R - A)
             ctx.ratio("chol_reproduce." + a.kind, e, tol)
             if e > tol:
@@ -901,7 +907,7 @@ def check_pinv(A, P, tag):
         return [(tag + ".value", "non-finite pseudo-inverse")], 0.0
     r, kappa, _ = rank_info(A)
     a, p = max(amax(A), 1e-300), max(amax(P), 1e-300)
-    base = 4000 * (m + n + 1) * EPS * kappa * max(m, n, 1)
+    base = 8000 * (m + n + 1) * EPS * kappa * max(m, n, 1)
     out = []
     worst = 0.0
     for name, E, sc in (("APA=A", A @ P @ A - A, a), ("PAP=P", P @ A @ P - P, p),
@@ -976,7 +982,7 @@ def step_svd(ctx, cmd, ans, post):
             Q = arr(ans["qxx"], (a.c, a.c))
             if unamb and kappa <= 1e5:
                 ref = np.linalg.pinv(a.val.T @ a.val, rcond=1e-11, hermitian=True) if a.val.size else np.zeros((a.c, a.c))
-                tol = 200 * (a.r + a.c) * EPS * kappa * kappa * max(amax(ref), 1e-300)
+                tol = 400 * (a.r + a.c) * EPS * kappa * kappa * max(amax(ref), 1e-300)
                 e = amax(Q - ref) if np.all(np.isfinite(Q)) else np.inf
                 ctx.ratio("svd_qxx", e, tol)
                 ctx.stats.label("svd_q_checked")
@@ -1053,7 +1059,7 @@ def step_misc(ctx, cmd, ans, post):
         if a.r != b.r:
             need_exc(ctx, ans, tag, 0)
             return True
-        if no_exc(ctx, ans, tag) and a.defined() and b.defined():
+        if no_exc(ctx, ans, tag) and a.defined() and b.defined() and np.all(np.isfinite(a.val)) and np.all(np.isfinite(b.val)):
             ref = float(a.val @ b.val)
             tol = 32 * EPS * (a.r + 2) * float(np.abs(a.val) @ np.abs(b.val)) + 1e-300
             e = abs(tofloat(ans["v"]) - ref)
@@ -1063,7 +1069,7 @@ def step_misc(ctx, cmd, ans, post):
         return True
     if op == "norms":
         a = M[cmd[1]]
-        if no_exc(ctx, ans, "norms") and a.defined():
+        if no_exc(ctx, ans, "norms") and a.defined() and np.all(np.isfinite(a.val)):
             ref = {"l1": float(np.sum(np.abs(a.val))), "l2": float(np.sqrt(a.val @ a.val)), "linf": amax(a.val)}
             for k, v in ref.items():
                 tol = 32 * EPS * (a.r + 2) * v + 1e-300
